@@ -1,10 +1,11 @@
 # property id -> (module under checks/, function)
 REGISTRY = {
     "C37": ("fn", "c37"),
+    "C20": ("relay", "run"), "C21": ("relay", "run"), "C22": ("relay", "run"), "C24": ("relay", "run"), "C25": ("relay", "run"),
 }
 
 # commits in /repo that add verif-tagged hooks (add-only)
-HOOK_COMMITS = []
+HOOK_COMMITS = ["f975847"]
 
 META = {
     "C37": dict(
@@ -16,3 +17,14 @@ META = {
         note="Resolver semantics per directive kind are transcribed by hand in Equiv.tla; universes have 2-3 values per parameter.",
     ),
 }
+
+_RELAY_NOTE = 'Fake SRPC streams replace the RPC framework; identities come from NewServerWithIdentify; quiescence is detected from goroutine states; relay snapshots from the verif accessor; behaviours are sampled by TLC simulation (not exhaustive on the implementation); the exhaustive part is the design model in small scope (2 peers x 3-4 calls, or 3 calls + 2 listeners).'
+_RELAY_TECH = "TLC exhaustive model checking of SignalingRelay.tla; TLC-simulated behaviours replayed on the real relay; recorded traces validated by TLC (observer RelayMon.tla + strict RelayTrace.tla)"
+for _p, _t in {
+    "C20": "ForwardAuthentic / NoFutureEpoch / NoStaleForward: every RecvMsg observed on a client stream is byte-identical to a message submitted with an authentic signature on the partner call in the server's current epoch; malicious requests (tampered, forged sender, foreign key, wrong context, future epoch, bad init) end the call with an error.",
+    "C21": "AckAfterDelivery / ClearOnlyNamed on observed streams: an AckMsg(n) reaches a call only after RecvMsg(n) was handed to the partner call and that call acked n; a ClearMsg(n) only for a delivered message the partner cleared. (Client side of the property: see C23/C19 checks.)",
+    "C22": "QuiescentAnnounced (every attached call has been told Opened(current epoch) or Closed at every quiescent point, including just-attached calls and usurping re-attachments) and DeliveryInAnnouncedEpoch (a message is delivered only under the announcement of the epoch it was submitted in), checked by TLC on the design for all interleavings and on recorded traces of the real relay.",
+    "C24": "QuiescentWants: at every quiescent point the SetPeer-minus-ClearPeer set seen by the active Listen call equals the set of peers with a current session call towards the listener (listen start/stop/usurp, sessions opening, closing, re-opening).",
+    "C25": "OneActiveSession / OneActiveListen at quiescence, replaced calls end with the replaced error (and only those), NoLeftovers: relay snapshot is empty once all calls ended.",
+}.items():
+    META[_p] = dict(technique=_RELAY_TECH, text=_t, note=_RELAY_NOTE)
